@@ -231,7 +231,8 @@ Qed.
 (* ---------------------------------------------------------------- polynomial fit *)
 Lemma poly_tol_pos : 0 < @poly_tol R RNum.
 Proof.
-  unfold poly_tol. cbn [nofdec RNum]. rewrite Rmult_1_l. apply powerRZ_lt. lra.
+  unfold poly_tol. cbn [nofdec RNum fst snd Gen.Consts.poly_regression_pivot_tol].
+  apply Rmult_lt_0_compat; [apply IZR_lt; reflexivity | apply powerRZ_lt; lra].
 Qed.
 
 Lemma moment_R (x : list R) k : moment x k = SumL (fun t => t ^ k) x.
